@@ -103,7 +103,10 @@ class Emitter:
         lines.append("pub enum %s%s {" % (ident, lt))
         canon_arms = []
         for c in e["cmds"]:
-            if c.get("doc"):
+            if c.get("doc") and c.get("doc_attr"):
+                # the same text as ONE #[doc = "..."] attribute with line feeds inside (what a /** */ block comment produces): doc.rs splits it
+                lines.append("    #[doc = %s]" % rust_str("\n".join((" " + dl) if dl else "" for dl in c["doc"].split("\n"))))
+            elif c.get("doc"):
                 for dl in c["doc"].split("\n"):
                     lines.append("    ///%s" % ((" " + dl) if dl else ""))
             attrs = []
@@ -508,6 +511,8 @@ def rand_enum(rng, depth=0, used=None):
                 if sub["field"] is None:
                     args = []
         cmds.append({"variant": v, "name": name, "doc": doc, "args": args, "sub": sub})
+        if doc and not doc.startswith("\n") and rng.randrange(3) == 0:
+            cmds[-1]["doc_attr"] = True
     return {"title": rng.choice([None, None, "Tools", "Группа"]), "cmds": cmds}
 
 def rand_set(rng):
